@@ -102,7 +102,12 @@ MVals1 == MVals0 \cup MObj1
 MObj2 == ObjsOver({N1, VNull} \cup ObjsOver({N1, VNull}, {KA, KAA}, 1, TRUE), {KA, KB}, 2, TRUE)
 \* three levels: null members and replacements at every depth (kept narrow: the universe is squared)
 MObj3 == ObjsOver({N1, VNull} \cup ObjsOver({N1, VNull} \cup ObjsOver({N1, VNull}, {KA}, 1, TRUE), {KA}, 1, TRUE), {KA, KB}, 2, TRUE)
-MergeUniverse == IF Tier = "quick" THEN MVals0 \cup MObj1 ELSE IF Tier = "deep" THEN MVals0 \cup MObj1 \cup MObj2 \cup MObj3 ELSE MVals0 \cup MObj1 \cup MObj2
+\* arrays are values to RFC 7396: null inside an array, and null members of objects inside arrays, are kept as they are - as a patch for any
+\* target, below object patches whose target has no such member / is not an object, and as targets
+ArrNull == VArr(<<VObj(<< <<KA, VNull>>, <<KB, N1>> >>)>>)
+MArrs == {ArrNull, VArr(<<VNull>>), VObj(<< <<KA, ArrNull>> >>), VObj(<< <<KB, VObj(<< <<KA, ArrNull>>, <<KB, VNull>> >>)>> >>),
+          VObj(<< <<KA, VArr(<<VNull, VObj(<< <<KA, VNull>> >>), VArr(<<VObj(<< <<KB, VNull>> >>)>>)>>)>> >>)}
+MergeUniverse == MArrs \cup IF Tier = "quick" THEN MVals0 \cup MObj1 ELSE IF Tier = "deep" THEN MVals0 \cup MObj1 \cup MObj2 \cup MObj3 ELSE MVals0 \cup MObj1 \cup MObj2
 
 \* ---- pairs for generation ----
 PLeaf == {N1, N2, VNull, VTrue, VFalse, S(<<120>>)}
@@ -134,7 +139,12 @@ HiDocs == ObjsOver({N1, N2}, {KA, KHi1, <<122>>}, 2, TRUE) \cup {VObj(<< <<KA, N
 K4100 == [i \in 1..4100 |-> IF i = 2000 THEN 47 ELSE 107]
 LongPath(x, y, z) == VArr(<< VObj(<< <<K4100, VObj(<< <<KA, x>> >>)>> >>), y, VArr(<<z>>) >>)
 LongDocs == {LongPath(N1, N1, N1), LongPath(N2, N2, N1), LongPath(N1, N2, N2), LongPath(N2, N1, N2)}
-PairUniverse == NumDocs \cup HiDocs \cup PairUniverse0 \cup LongDocs
+\* nested objects with zero to three members in every member order under one key, one and two levels down: the two sides of a pair then hold
+\* nested objects of different size and order (the utilities sort what they compare; whatever they compare must have been sorted)
+NestedFam == {VObj(<< <<KA, x>>, <<KB, N2>> >>) : x \in ObjsOver({N1}, {KA, KB, KTI}, 3, TRUE)}
+             \cup {VObj(<< <<KA, VObj(<< <<KB, N2>>, <<KA, N1>> >>)>>, <<KB, N2>> >>)}
+             \cup {VObj(<< <<KB, VObj(<< <<KA, x>> >>)>> >>) : x \in ObjsOver({N1}, {KB, KA}, 2, TRUE) \cup {VObj(<< <<KTI, N1>>, <<KB, N2>>, <<KA, N1>> >>)}}
+PairUniverse == NumDocs \cup HiDocs \cup PairUniverse0 \cup LongDocs \cup NestedFam
 
 Init == /\ phase = 0 /\ b = VNull
         /\ a \in (IF Mode = "apply" THEN DocsApply \cup (IF Tier = "quick" THEN {} ELSE Doc1 \cup BigDocsApply) ELSE IF Mode = "merge" THEN MergeUniverse ELSE PairUniverse)
